@@ -16,7 +16,7 @@ TRUSTED_BASE = [
 ASSUMPTIONS = [
     "Tier F: iterates and product counts are compared only on inputs on which the Arnoldi/normal-equations recurrence is numerically stable (binary64 vs extended precision of a reference recurrence agree to 1e-12, same number of steps, clip/stopping/padding decisions with margin > 1e-5); the others are counted as skipped_unstable or near_tie and go through the oracle only",
     "operators enter the model as dense matrices; use_householder / use_triangular / preconditioned variants of gmres are outside the property's anchors and not modelled",
-    "minimal-residual clauses allow (1e-6 + 1e-13*kappa^2)*||r0|| (rounding of the normal equations) plus the binary64 accuracy floor 200*eps*(||A|| ||x|| + ||b||); "
+    "minimal-residual clauses allow (1e-6 + 1e-11*kappa^2)*||r0|| (rounding of the normal equations) plus the binary64 accuracy floor 200*eps*(||A|| ||x|| + ||b||); "
     "30*tol*kappa*||r0|| more only when the Arnoldi loop stopped before min(m, n) steps because the remainder fell below tol*||A q_0|| (the accuracy the caller's tol asks for)",
 ]
 
@@ -341,7 +341,7 @@ def run(ctx):
                         prev = None
                         continue
                     early_stop = 0 <= dg["steps"] < min(c["m"], c["n"]) or any(dg["overrun"])
-                    if np.any(res > prev * (1 + 1e-6) + (1e-6 + 1e-13 * c["kappa"] ** 2 + (30 * c["tol"] * c["kappa"] if early_stop else 0)) * r0 + floor):
+                    if np.any(res > prev * (1 + 1e-6) + (1e-6 + 1e-11 * c["kappa"] ** 2 + (30 * c["tol"] * c["kappa"] if early_stop else 0)) * r0 + floor):
                         mism.append(dict(oracle_fail=True, case=describe(c, o), failed_clauses=["residual increases with max_iters: %s after %s" % (res.tolist(), prev.tolist())], model_disagrees=False))
                         dump_case(c, o)
                 prev = res
